@@ -177,6 +177,16 @@ Finalize(e) ==                              \* safe at any point, any number of 
   /\ UNCHANGED <<unf, has, undef>>
   /\ obs' = [call |-> "finalize", obj |-> e]
 
+(* The caller lets go of the engine OBJECT (it is garbage-collected); a later set-up under the same name uses a new   *)
+(* object.  Letting go of an object is not a call of the library: no simulation - its own or another object's - is    *)
+(* touched (LibRDEngine has no destructor).                                                                           *)
+Drop(e) ==
+  /\ ~undef
+  /\ has' = [has EXCEPT ![e] = FALSE]
+  /\ unf' = [unf EXCEPT ![e] = TRUE]
+  /\ UNCHANGED <<alg, undef>>
+  /\ obs' = [call |-> "drop", obj |-> e]
+
 (* Sharing = "global" only: a call that dereferences a deleted simulation.   *)
 Undefined(e) ==
   /\ Sharing = "global" /\ ~undef /\ has[e] /\ ~Live(e)
